@@ -41,8 +41,72 @@ def add_count(ctx, body, op):
     return n
 
 
+def aux_after_base_import(ctx, chk, rid):
+    """shared by C13 and C14: inside import_with, nothing that can create or open an auxiliary region (pages index,
+    holes) runs before the header of the data region was verified"""
+    O, P = ctx.O, ctx.P
+    BASE = M(r"vecdb::base::read_write::ReadWriteBaseVec::<I, T>::import")
+    AUX = M(r"rawdb::Database::create_region_if_needed", reach=True,
+            where=lambda body, b, t: not any(BASE.rx.fullmatch(n) for n in names(t)))
+    for kind, pre in (("raw", RAW), ("compressed", CMP)):
+        im = O.body(pre + "import_with")
+        O.need_sites(im, BASE, 1)
+        aux = O.sites(im, AUX)
+        early = O.precedes(im, BASE, AUX) if aux else []
+        chk.oblige("%s %s import_with: auxiliary regions are created/opened only after ReadWriteBaseVec::import verified "
+                   "the header [%d aux site(s)]" % (rid, kind, len(aux)), not early,
+                   key="%s|%s|aux-region-before-verification" % (rid, kind),
+                   msg="a refused import must not leave a freshly created side region behind (new name, slot and extent)")
+
+
 def run(ctx, chk):
     O, P = ctx.O, ctx.P
+    import props.anchors as anchors
+    anchors.check(ctx, chk, ['computed_field', 'computed_not_vec_version', 'stamp_field'])
+    aux_after_base_import(ctx, chk, "F5")
+    # F3c in the reset arm the data region goes first: its removal is the one that can refuse (a read-only clone pins
+    # it), and nothing may have been discarded when it does
+    for kind, pre in (("raw", RAW), ("compressed", CMP)):
+        fi = O.body(pre + "forced_import_with")
+        rm = M(r"rawdb::Database::remove_region(_if_exists)?")
+        def named(body, b, which):
+            sl = O.slice_back(body, body.blocks[b]["term"]["args"][1])
+            aux = any(c.endswith("holes_region_name_with") or c.endswith("pages_region_name_with") or c.endswith("holes_region_name")
+                      or c.endswith("pages_region_name") for c in sl["calls"])
+            main = any(c.endswith("vec_region_name_with") or c.endswith("vec_region_name") for c in sl["calls"]) and not aux
+            return main if which == "main" else aux
+        MAIN = M(rm.rx.pattern, where=lambda body, b, t: named(body, b, "main"))
+        AUXR = M(rm.rx.pattern, where=lambda body, b, t: named(body, b, "aux"))
+        ms, xs = O.sites(fi, MAIN), O.sites(fi, AUXR)
+        bad = O.precedes(fi, MAIN, AUXR) if xs else []
+        chk.oblige("F3c %s forced_import_with: the data region is removed before any auxiliary region [%d + %d removals]"
+                   % (kind, len(ms), len(xs)), bool(ms) and not bad, key="F3c|%s|aux-removed-before-data" % kind,
+                   msg="removing the data region can be refused (RegionStillReferenced while a read-only clone lives); "
+                       "side regions discarded before that are lost although the reset reported an error")
+    # F6 the stored vec version is compared for (in)equality: an ordering test lets an import with a bumped own version
+    # succeed on old data
+    iv = O.body("vecdb::base::header::inner::HeaderInner::import_and_verify")
+    dv = [b for b in iv.reachable() for st in iv.blocks[b]["stmts"]
+          if st[0] == "assign" and st[2]["k"] == "agg" and st[2].get("variant") == "DifferentVersion"]
+    if not dv:
+        raise AnchorMissing("import_and_verify: no DifferentVersion construction")
+    import props.c17 as c17
+    eqs, ords = 0, 0
+    dom = iv.dominators()
+    for b in dv:
+        gs = c17.guards_of(ctx, iv, b)
+        # the nearest guard: the test whose outcome directly selects this refusal
+        for g in sorted(gs, key=lambda g_: len(dom[g_["block"]]))[-1:]:
+            if any(re.search(r"cmp::PartialEq(<.*>)?>?::(ne|eq)$", c) for c in g["calls"]) or g.get("binops", set()) & {"Ne", "Eq"}:
+                eqs += 1
+            if any(re.search(r"cmp::PartialOrd(<.*>)?>?::(lt|le|gt|ge)$|cmp::Ord>?::cmp$", c) for c in g["calls"]) \
+                    or g.get("binops", set()) & {"Lt", "Le", "Gt", "Ge"}:
+                ords += 1
+    chk.oblige("F6 import_and_verify: every DifferentVersion refusal is guarded by an (in)equality test of the versions "
+               "[%d refusal(s), %d equality guards, %d ordering guards]" % (len(dv), eqs, ords), eqs >= len(dv) and ords == 0,
+               key="F6|import_and_verify|version-ordering-test",
+               msg="a stored version that merely is not newer is accepted: results computed under an older own version "
+                   "are served under the new one")
     verr = [v["name"] for v in P.adts["vecdb::error::Error"]["variants"]]
     arms = {}
     for kind, pre in (("raw", RAW), ("compressed", CMP)):
